@@ -170,7 +170,32 @@ class Gen:
         if k == 16:
             return E(Bin("do", Un("with", Nul(r.choice(["uiNamespace", "missionNamespace"]))),
                          Code(Asg(r.choice(self.globals), self.num(0)), self.mark(Var(r.choice(self.globals))))))
+        if k == 17 and r.random() < 0.5:
+            return self.faulty_stmt(d)
         return E(self.construct_value(d))
+
+    def faulty_stmt(self, d):
+        """statements that raise runtime errors at the interesting places (C04)"""
+        r = self.rng
+        k = r.randint(0, 7)
+        err = E(Bin("select", self.arr(0), N(9)))
+        if k == 0:   # error raised by an iteration behaviour
+            return E(Bin("count", Code(self.mark(), E(N(5))), Arr(N(1), N(2))))
+        if k == 1:   # error inside a try block: try-catch does not handle runtime errors
+            return E(Bin("catch", Un("try", Code(self.mark(), err, self.mark())), Code(self.mark(S("catch")))))
+        if k == 2:   # second error inside an except__ handler
+            return E(Bin("except__", Code(self.mark(), err, self.mark()), Code(self.mark(S("h1")), err, self.mark(S("h2")))))
+        if k == 3:   # throw inside catch propagates outwards
+            return E(Bin("catch", Un("try", Code(E(Bin("catch", Un("try", Code(E(Un("throw", N(1))))), Code(self.mark(), E(Un("throw", N(2)))))))),
+                         Code(self.mark(Var("_exception")))))
+        if k == 4:   # nested handlers: inner try declines, outer except__ takes it
+            return E(Bin("except__", Code(E(Bin("catch", Un("try", Code(self.mark(), err, self.mark())), Code(self.mark(S("c"))))), self.mark()),
+                         Code(self.mark(S("outer")))))
+        if k == 5:   # while with a non-boolean condition
+            return E(Bin("do", Un("while", Code(E(S("x")))), Code(self.mark())))
+        if k == 6:   # error in a select/apply/findIf result
+            return E(Bin(r.choice(["select", "findIf"]), self.arr(0) if r.random() < 0.3 else Arr(N(1), N(2)), Code(E(N(3)))))
+        return err
 
     def program(self, depth=3, length=4):
         r = self.rng
